@@ -37,6 +37,7 @@ type Report struct {
 	SecondOut  string `json:"secondOut"`
 	SecondMS   int64  `json:"secondMS"`
 	TimedOut   bool   `json:"timedOut,omitempty"`
+	Backdated  bool   `json:"backdated,omitempty"`
 }
 
 func snap(data, marker string, d *dag.DAG) Snap {
@@ -80,14 +81,31 @@ func main() {
 	}
 	var r Report
 	r.Before = snap(data, marker, d)
-	args := []string{"start", "-q", file}
+	// optional: the spelling of the file on the second's command line, its
+	// working directory, and "backdate"
+	named, cwd := file, ""
+	if len(os.Args) > 9 {
+		named, cwd = os.Args[8], os.Args[9]
+	}
+	if len(os.Args) > 10 && os.Args[10] == "backdate" && r.Before.SocketAnswer != "" {
+		old := time.Now().Add(-25 * time.Hour)
+		filepath.Walk(data, func(p string, fi os.FileInfo, err error) error {
+			if err == nil && !fi.IsDir() {
+				os.Chtimes(p, old, old)
+			}
+			return nil
+		})
+		r.Backdated = true
+	}
+	args := []string{"start", "-q", named}
 	if mode == "retry" && len(os.Args) > 7 {
-		args = []string{"retry", "--req=" + os.Args[7], file}
+		args = []string{"retry", "--req=" + os.Args[7], named}
 	}
 	ctx, cancel := context.WithTimeout(context.Background(), 20*time.Second)
 	defer cancel()
 	t0 := time.Now()
 	cmd := exec.CommandContext(ctx, bin, args...)
+	cmd.Dir = cwd
 	out, err := cmd.CombinedOutput()
 	r.SecondMS = time.Since(t0).Milliseconds()
 	if ctx.Err() != nil {
